@@ -330,6 +330,8 @@ func (x *Exec) evalModifies(c *Clause, env *SpecEnv) (modTarget, bool) {
 
 func locKey(lv LocV) string {
 	switch lv.Kind {
+	case "box":
+		return "Cell." + typeName(lv.Ty.Underlying().(*types.Pointer).Elem())
 	case "field":
 		return lv.Outer + "." + fieldPathName(lv.ST, lv.Path)
 	case "elem":
@@ -399,15 +401,14 @@ func (x *Exec) havocRange(n *node, mt modTarget) {
 	st := n.st
 	for _, c := range shapeComps(mt.elem) {
 		key := mt.key + c.Suffix
-		h := x.heap(st, key, Arr(IntS, Arr(bv64, c.S)))
-		oldInner := x.VC.Def("old.inner", Select(h, mt.sl.Arr))
+		oldInner := x.VC.Def("old.inner", x.objGet(st, key, Arr(bv64, c.S), mt.sl.Arr))
 		na := x.VC.Fresh("mod.inner", Arr(bv64, c.S))
 		k := x.VC.Fresh("k", bv64)
 		lo := BVBin("bvadd", mt.sl.Off, mt.lo)
 		hi := BVBin("bvadd", mt.sl.Off, mt.hi)
 		inside := And(BVCmp("bvule", lo, k), BVCmp("bvult", k, hi))
 		x.VC.AssumeForall([]*Term{k}, n.guard, Implies(Not(inside), Eq(Select(na, k), Select(oldInner, k))), "frame:range")
-		x.setHeap(st, key, x.VC.Def("H.elem"+c.Suffix, Store(h, mt.sl.Arr, na)), mt.sl.Arr)
+		x.objSetRange(st, key, mt.sl.Arr, na, BVBin("bvadd", mt.sl.Off, mt.lo), BVBin("bvadd", mt.sl.Off, mt.hi))
 	}
 }
 
@@ -416,6 +417,8 @@ func (x *Exec) havocLoc(n *node, lv LocV) {
 	elem := lv.Ty.Underlying().(*types.Pointer).Elem()
 	v := x.freshValue(elem, "mod", n.guard, st)
 	switch lv.Kind {
+	case "box":
+		x.storeField(st, "Cell", typeName(elem), elem, lv.Obj, v)
 	case "field":
 		x.storeField(st, lv.Outer, fieldPathName(lv.ST, lv.Path), elem, lv.Obj, v)
 	case "elem":
@@ -535,17 +538,18 @@ func (x *Exec) copyOp(n *node, dst, src SliceV, dstTy types.Type) Value {
 		elem = stt.Elem()
 	}
 	cnt := x.VC.Def("copy.n", Ite(BVCmp("bvslt", dst.Len, src.Len), dst.Len, src.Len))
+	x.VC.Assume(n.guard, And(BVCmp("bvule", cnt, dst.Len), BVCmp("bvule", cnt, src.Len), BVCmp("bvule", dst.Off, BVBin("bvadd", dst.Off, cnt)),
+		BVCmp("bvule", BVBin("bvadd", dst.Off, cnt), BVBin("bvadd", dst.Off, dst.Len))), "copy-count")
 	for _, c := range shapeComps(elem) {
 		key := elemKey(elem) + c.Suffix
-		h := x.heap(st, key, Arr(IntS, Arr(bv64, c.S)))
-		oldDst := x.VC.Def("copy.olddst", Select(h, dst.Arr))
-		srcArr := x.VC.Def("copy.src", Select(h, src.Arr))
+		oldDst := x.VC.Def("copy.olddst", x.objGet(st, key, Arr(bv64, c.S), dst.Arr))
+		srcArr := x.VC.Def("copy.src", x.objGet(st, key, Arr(bv64, c.S), src.Arr))
 		na := x.VC.Fresh("copy.new", Arr(bv64, c.S))
 		k := x.VC.Fresh("k", bv64)
 		rel := BVBin("bvsub", k, dst.Off)
 		body := Eq(Select(na, k), Ite(BVCmp("bvult", rel, cnt), Select(srcArr, BVBin("bvadd", src.Off, rel)), Select(oldDst, k)))
 		x.VC.AssumeForall([]*Term{k}, n.guard, body, "copy")
-		x.setHeap(st, key, x.VC.Def("H.elem"+c.Suffix, Store(h, dst.Arr, na)), dst.Arr)
+		x.objSetRange(st, key, dst.Arr, na, dst.Off, BVBin("bvadd", dst.Off, cnt))
 	}
 	return Scalar{T: cnt, Ty: tyInt}
 }
@@ -569,9 +573,8 @@ func (x *Exec) appendOp(n *node, sl SliceV, extra Value, c *ssa.CallCommon) Valu
 	x.VC.Assume(n.guard, And(BVCmp("bvsle", newLen, newCap), BVCmp("bvsle", newCap, lim47), Implies(fits, Eq(newCap, sl.Cap))), "append-cap")
 	for _, cp := range shapeComps(elem) {
 		key := elemKey(elem) + cp.Suffix
-		h := x.heap(st, key, Arr(IntS, Arr(bv64, cp.S)))
-		oldInner := x.VC.Def("append.old", Select(h, sl.Arr))
-		exInner := x.VC.Def("append.ex", Select(h, ex.Arr))
+		oldInner := x.VC.Def("append.old", x.objGet(st, key, Arr(bv64, cp.S), sl.Arr))
+		exInner := x.VC.Def("append.ex", x.objGet(st, key, Arr(bv64, cp.S), ex.Arr))
 		na := x.VC.Fresh("append.new", Arr(bv64, cp.S))
 		k := x.VC.Fresh("k", bv64)
 		rel := BVBin("bvsub", k, resOff)
@@ -580,7 +583,7 @@ func (x *Exec) appendOp(n *node, sl SliceV, extra Value, c *ssa.CallCommon) Valu
 			Ite(BVCmp("bvult", rel, newLen), Select(exInner, BVBin("bvadd", ex.Off, BVBin("bvsub", rel, sl.Len))),
 				Ite(fits, Select(oldInner, k), zeroTerm(cp.S))))
 		x.VC.AssumeForall([]*Term{k}, n.guard, Eq(Select(na, k), val), "append")
-		x.setHeap(st, key, x.VC.Def("H.elem"+cp.Suffix, Store(h, resArr, na)), resArr)
+		x.objSetRange(st, key, resArr, na, BVBin("bvadd", resOff, sl.Len), BVBin("bvadd", resOff, newLen))
 	}
 	return SliceV{Arr: resArr, Off: resOff, Len: newLen, Cap: newCap, Ty: c.Args[0].Type()}
 }
@@ -678,6 +681,7 @@ func (x *Exec) runDefers(fc *funcCtx, n *node) {
 		saveGuard := n.guard
 		before := n.st.Clone()
 		n.guard = x.VC.Def("g.defer", And(saveGuard, cond))
+		n.st.G = n.guard
 		c := &di.Call
 		rty := c.Signature().Results()
 		if c.IsInvoke() {
@@ -697,6 +701,7 @@ func (x *Exec) runDefers(fc *funcCtx, n *node) {
 			}
 		}
 		n.guard = saveGuard
+		n.st.G = saveGuard
 		if cond != True && !impliesSyntactically(saveGuard, cond) {
 			merged := x.mergeStates(cond, n.st, before)
 			*n.st = *merged
